@@ -1,4 +1,6 @@
 import Mingus.Model.Notes
+import Mingus.Model.Keys
+import Mingus.Model.Intervals
 /- Line-protocol dispatch: function name + decoded arguments → observation. -/
 namespace Mingus
 open Val
@@ -14,8 +16,39 @@ def dispatchNotes : String → List Val → Option Val
   | "notes.remove_redundant_accidentals", [str s] => some (toVal (Notes.removeRedundant s))
   | _, _ => none
 
+def dispatchKeys : String → List Val → Option Val
+  | "keys.is_valid_key", [str k] => some (toVal (Keys.isValidKey k))
+  | "keys.get_key", [int i] => some (toVal (Keys.getKey i))
+  | "keys.get_key_signature", [str k] => some (toVal (Keys.getKeySignature k))
+  | "keys.get_key_signature_accidentals", [str k] => some (toVal (Keys.getKeySignatureAccidentals k))
+  | "keys.get_notes", [str k] => some (toVal (Keys.getNotes k))
+  | "keys.relative_major", [str k] => some (toVal (Keys.relativeMajor k))
+  | "keys.relative_minor", [str k] => some (toVal (Keys.relativeMinor k))
+  | "keys.Key", [str k] => some (toVal ((Keys.keyObj k).map (fun r => Val.list [toVal r.1, toVal r.2.1, toVal r.2.2])))
+  | _, _ => none
+
+def dispatchIntervals : String → List Val → Option Val
+  | "intervals.interval", [str k, str n, int i] => some (toVal (Intervals.interval k n i.toNat))
+  | "intervals.ctor", [str name, str n] => (Intervals.ctorByName name n).map toVal
+  | "intervals.diatonic", [str name, str n, str k] =>
+      (Intervals.degreeFns.lookup name).map (fun st => toVal (Intervals.interval k n st))
+  | "intervals.unison", [str n] => some (toVal (Intervals.interval n n 0))
+  | "intervals.measure", [str a, str b] => some (toVal (Intervals.measure a b))
+  | "intervals.is_consonant", [str a, str b, Val.bool f] => some (toVal (Intervals.isConsonant a b f))
+  | "intervals.is_perfect_consonant", [str a, str b, Val.bool f] => some (toVal (Intervals.isPerfectConsonant a b f))
+  | "intervals.is_imperfect_consonant", [str a, str b] => some (toVal (Intervals.isImperfectConsonant a b))
+  | "intervals.is_dissonant", [str a, str b, Val.bool f] => some (toVal (Intervals.isDissonant a b f))
+  | "intervals.determine", [str a, str b, Val.bool sh] => some (toVal (Intervals.determine a b sh))
+  | "intervals.from_shorthand", [str n, str iv, Val.bool up] => some (toVal (Intervals.fromShorthand n iv up))
+  | "intervals.invert", [list l] =>
+      let strs := l.filterMap (fun v => match v with | str x => some x | _ => Option.none)
+      some (toVal (Intervals.invert strs))
+  | _, _ => none
+
 def dispatch (fn : String) (args : List Val) : Option Val :=
-  dispatchNotes fn args
+  (dispatchNotes fn args).orElse fun _ =>
+  (dispatchKeys fn args).orElse fun _ =>
+  dispatchIntervals fn args
 
 def runLine (line : String) : String :=
   match (line.trimAscii.toString.splitOn " ") with
